@@ -1197,7 +1197,8 @@ class ContractMixin:
             st.old = saved
 
     def check_common_exit(self, c, info, st, tag):
-        if self.init_self is not None:
+        if self.init_self is not None and not tag.startswith("raise"):
+            # (a constructor that raises produces no object: the class invariants are not demanded of the abandoned `self`)
             st.constructing = st.constructing - {self.init_self.t.get_id()}
         self.check_guarantee(c, st, "exit(%s)" % tag)
         for i, cl in enumerate(c.on_exit):
